@@ -38,18 +38,21 @@ ASSUMPTIONS = ['the canonicaliser vlib/c17_canon.py defines "can behave differen
                'collisions are searched within a worker process (base corpus + its own random families), not across workers',
                'binary streams, structured/object dtype arrays and objects hashed as a tagged tuple (hashable_function, solver methods) are out of the verdict',
                'SHA-1 is treated as collision free; only structural (pre-image independent) collisions are in reach']
-BUDGET_S = {'quick': 75, 'thorough': 1300}
+BUDGET_S = {'quick': 80, 'thorough': 1300}
+if os.environ.get('VERIF_C17_BUDGET'):      # development on a loaded machine only
+    BUDGET_S = {k: float(os.environ['VERIF_C17_BUDGET']) for k in BUDGET_S}
 GRACE_S = 60
 
 SCALE = float(os.environ.get('VERIF_C17_SCALE', '1') or 1)
-NFAM = {'quick': 21000, 'thorough': 420000}
-NROUTE = {'quick': 1400, 'thorough': 28000}
-NHIST = {'quick': 420, 'thorough': 8400}
-NCONS = {'quick': 280, 'thorough': 4200}
-NXPROC = {'quick': 1500, 'thorough': 8000}          # recipes per cross-process unit
+NFAM = {'quick': 8000, 'thorough': 150000}
+NROUTE = {'quick': 1000, 'thorough': 16000}
+NHIST = {'quick': 300, 'thorough': 5000}
+NCONS = {'quick': 200, 'thorough': 2500}
+NXPROC = {'quick': 1200, 'thorough': 5000}          # recipes per cross-process unit
 XCHUNKS = {'quick': 1, 'thorough': 4}
 HASHSEEDS = ['0', '1', '2', '3', '4', '5', '6', '7', 'random']
 CHUNK = {'corpus': 150, 'routes': 50, 'hist': 30, 'cons': 20}
+PYCACHE = '/var/tmp/verif-c17-pycache'
 KNOWN_BARE = 'C17-type-tag-by-bare-name'
 KNOWN_INTERN = 'C17-intern-key-python-equality'
 
@@ -97,12 +100,67 @@ def typename(v):
 
 
 class Obs:
-    __slots__ = ('recipe', 'status', 'value', 'token', 'canon', 'why')
+    __slots__ = ('recipe', 'status', 'value', 'token', 'canon', 'why', 'expected')
 
 
-def observe(r, res, K, G):
+def expected_args(G, r):
+    """The reduce-arguments an ['im', key, pos, kw] recipe asks for, by my own reading of the documented canonicalisation:
+    positional-or-keyword parameters in signature order with defaults filled in; Immutable types append the sorted
+    items of the keyword-only / **kwargs arguments as one tuple."""
+    import inspect
+    from nutils import types as nt
+    cls = G.classes()[r[1]]
+    pos = [G.build(x) for x in r[2]]
+    kw = {n: G.build(x) for n, x in r[3]}
+    if issubclass(cls, nt.DataClass):
+        ba = cls.__signature__.bind(*pos, **kw)
+        ba.apply_defaults()
+        return cls, tuple(ba.arguments.values())
+    sig = inspect.signature(cls.__init__)
+    ba = sig.bind(None, *pos, **kw)
+    ba.apply_defaults()
+    positional, keyword = [], {}
+    for name, p in list(sig.parameters.items())[1:]:
+        v = ba.arguments[name]
+        if p.kind in (p.POSITIONAL_ONLY, p.POSITIONAL_OR_KEYWORD):
+            positional.append(v)
+        elif p.kind == p.VAR_POSITIONAL:
+            positional.extend(v)
+        elif p.kind == p.KEYWORD_ONLY:
+            keyword[name] = v
+        else:
+            keyword.update(v)
+    return cls, tuple(positional) + (tuple(sorted(keyword.items())),)
+
+
+def check_construction(o, res, K, G, st=None):
+    """The object returned for an ['im', ...] recipe must hold the requested arguments."""
+    try:
+        cls, req = expected_args(G, o.recipe)
+        o.expected = K.object_digest(cls, req)
+    except Exception:
+        res.count('construction_expected_unavailable')
+        return
+    res.count('construction_checks')
+    if o.expected == o.canon:
+        return
+    actual = o.value.__reduce__()[1]
+    how = K.arg_difference(req, actual)
+    case = dict(kind='construction', recipe=o.recipe)
+    det = 'requested %s(%s)\nreturned object holds (%s)' % (cls.__qualname__, ', '.join(K.describe(a, 60) for a in req), ', '.join(K.describe(a, 60) for a in actual))
+    if interned(o.value) and how == 'lookalike-bif':
+        res.count('construction_conflated/bool-int-float')
+        if st is None or st.cap('construction' + KNOWN_INTERN, 2):
+            res.violation('interning: the object returned for a construction holds ==-equal but different arguments (another live instance was returned)', case, det, mechanism=KNOWN_INTERN)
+    elif interned(o.value) and how == 'lookalike-other':
+        res.count('construction_conflated/other-lookalikes')     # same mechanism through complex / numpy / enum / int-subclass arguments: left out of the verdict
+    else:
+        res.violation('construction: the returned object does not hold the requested arguments', case, det)
+
+
+def observe(r, res, K, G, st=None):
     o = Obs()
-    o.recipe, o.value, o.token, o.canon, o.why = r, None, None, None, None
+    o.recipe, o.value, o.token, o.canon, o.why, o.expected = r, None, None, None, None, None
     try:
         with warnings.catch_warnings():
             warnings.simplefilter('ignore')
@@ -122,7 +180,12 @@ def observe(r, res, K, G):
     except RecursionError:
         o.status, o.why = 'unclassified', 'canonicaliser recursion limit'
         return o
+    except Exception as e:
+        o.status, o.why = 'unclassified', 'canonicaliser failed on this value: ' + type(e).__name__
+        return o
     o.status = 'ok'
+    if r[0] == 'im':
+        check_construction(o, res, K, G, st)
     return o
 
 
@@ -186,7 +249,9 @@ def table_insert(st, res, o, src):
             warnings.simplefilter('ignore')
             a = st.G.build(ra)
     except Exception as e:
-        res.violation('harness: colliding value could not be rebuilt', dict(kind='collision', a=ra, b=o.recipe), repr(e))
+        res.count('collisions_unclassified')
+        res.add('unclassified_reasons', 'the earlier colliding value could not be rebuilt')
+        res.note('collision left unclassified, earlier value could not be rebuilt (%r): %s | %s' % (e, json.dumps(ra)[:200], json.dumps(o.recipe)[:200]))
         return
     report_collision(st, res, ra, a, o.recipe, o.value, h, old[0])
 
@@ -229,7 +294,7 @@ def run_base(st, res):
     G = st.G
     st.base = G.base_corpus()
     for i, r in enumerate(st.base):
-        o = observe(r, res, st.K, G)
+        o = observe(r, res, st.K, G, st)
         account(st, res, o, ('b', i), family='base')
         if o.status == 'ok':
             pickle_route(st, res, o, ('b', i), 2 + i % 4)
@@ -303,7 +368,7 @@ def pickle_route(st, res, o, src, proto):
             res.violation('stability: pickle round trip changes a nutils value', case, '%s\nbecame %s' % (K.describe(o.value), K.describe(v2)))
         elif t2[1] != ':':
             o2 = Obs()
-            o2.recipe, o2.value, o2.token, o2.canon = ['pk', o.recipe, proto], v2, t2, c2
+            o2.recipe, o2.value, o2.token, o2.canon, o2.expected = ['pk', o.recipe, proto], v2, t2, c2, None
             table_insert(st, res, o2, src + (proto, 'pk'))
         return
     res.count('routes/pickle')
@@ -376,13 +441,15 @@ def run_corpus(st, res, start, stop, ctx):
         res.count('families')
         members = []
         for j, r in enumerate(fam):
-            o = observe(r, res, st.K, G)
+            o = observe(r, res, st.K, G, st)
             account(st, res, o, ('f', idx, j), family=name)
             if o.status == 'ok':
                 members.append(o)
                 pickle_route(st, res, o, ('f', idx, j), 2 + (idx + j) % 4)
         consistency(st, res, members)
-        if idx % 1999 == 0 and members:
+        del members
+        st.K.forget_hashable_functions()
+        if idx % 1999 == 0:
             res.sample(dict(kind='family', family=name, index=idx, recipes=fam[:4]))
 
 
@@ -390,14 +457,15 @@ def run_corpus(st, res, start, stop, ctx):
 
 def check_route(st, res, kind, r1, r2):
     K, G = st.K, st.G
-    a, b = observe(r1, res, K, G), observe(r2, res, K, G)
+    a, b = observe(r1, res, K, G, st), observe(r2, res, K, G, st)
     res.count('route_pairs')
     if a.status != 'ok' or b.status != 'ok':
         res.count('route_pairs_not_comparable/%s/%s+%s' % (kind, a.status, b.status))
         if {a.status, b.status} == {'ok', 'refused'}:
             res.note('route %s: one side refused: %s | %s' % (kind, json.dumps(r1)[:150], json.dumps(r2)[:150]))
         return
-    if a.canon != b.canon:
+    same_value = (a.expected == b.expected) if (a.expected is not None and b.expected is not None) else (a.canon == b.canon)
+    if not same_value:
         res.count('route_pairs_different_value/' + kind)      # e.g. {1, True}: python keeps the first; not the same value, no verdict
         return
     res.count('routes/' + kind)
@@ -533,7 +601,7 @@ def valid_pool(st, res, pool):
         canons, ok = set(), True
         good = []
         for r in ent:
-            o = observe(r, res, K, G)
+            o = observe(r, res, K, G, st)
             if o.status != 'ok':
                 continue
             good.append(r)
@@ -620,6 +688,12 @@ def run_hist(st, res, start, stop, ctx):
         names = [n for n in c17_nutils.names() if n.split('.', 1)[0] in c17_nutils._mesh_makers()]
         n = names[int(rng.integers(len(names)))]
         check_route(st, res, 'rebuilt', ['nu', n], ['nuf', n])
+        # the same mesh reached through another mesh call signature (compared only if the canonical forms agree)
+        m1, m2 = c17_nutils.SAME_STRUCTURE[int(rng.integers(len(c17_nutils.SAME_STRUCTURE)))]
+        cand = [x for x in names if x.startswith(m1 + '.') and (m2 + x[len(m1):]) in c17_nutils.catalogue()]
+        if cand:
+            x = cand[int(rng.integers(len(cand)))]
+            check_route(st, res, 'rebuilt', ['nu', x], ['nu', m2 + x[len(m1):]])
         if i % 97 == 0:
             res.sample(dict(kind='history', pool=pool[:2], ops=ops[:6]))
 
@@ -654,6 +728,9 @@ def run_child(recipes, pickles, hashseed, order, timeout=600):
             json.dump(dict(recipes=recipes, pickles=pickles, order=order), f)
         env = dict(os.environ)
         env['PYTHONHASHSEED'] = hashseed
+        # children recompile nothing: byte code cache outside the repository (validated by source mtime/size, so safe across VERIF_REPO copies)
+        env['PYTHONPYCACHEPREFIX'] = PYCACHE
+        env.pop('PYTHONDONTWRITEBYTECODE', None)
         p = subprocess.run([sys.executable, '-m', 'vlib.c17_child', infile, outfile], env=env, cwd=VERIF, timeout=timeout, stdout=subprocess.PIPE, stderr=subprocess.STDOUT)
         if p.returncode != 0 or not os.path.exists(outfile):
             return None, p.stdout.decode(errors='replace')[-800:]
@@ -814,7 +891,7 @@ def run_cache_function(st, res, fam, cachedir):
     first = {}
     with cache.enable(cachedir):
         for r in fam:
-            o = observe(r, res, K, G)
+            o = observe(r, res, K, G, st)
             if o.status != 'ok':
                 continue
             try:
@@ -913,6 +990,8 @@ def replay(case):
             report_collision(st, res, case['a'], G.build(case['a']), case['b'], b.value, b.token, ca)
     elif k == 'route':
         check_route(st, res, case['route'], case['a'], case['b'])
+    elif k == 'construction':
+        observe(case['recipe'], res, K, G)
     elif k == 'pickle':
         o = observe(case['recipe'], res, K, G)
         if o.status == 'ok':
@@ -1009,6 +1088,7 @@ def finalize(m, tier, seed):
                xproc_units=c.get('xproc_units', 0), xproc_hashseeds=sorted(m.sets.get('xproc_hashseeds', ())), xproc_distinct_str_hashes=len(m.sets.get('xproc_str_hashes', ())),
                xproc_compared=sub('xproc_compared/'), xproc_child_failed=c.get('xproc_child_failed', 0),
                histories=c.get('histories', 0), history_ops=sub('history_ops/'), recreated_after_free=c.get('recreated_after_free', 0), identity_checks=c.get('identity_checks', 0),
+               construction_checks=c.get('construction_checks', 0), construction_conflated=sub('construction_conflated/'),
                conflation_cases=c.get('conflation_cases', 0), conflation_observed=c.get('conflation_observed', 0),
                consistency_pairs=c.get('consistency_pairs', 0), consistency_equal_pairs=c.get('consistency_equal_pairs', 0), eq_coarser_than_structure=c.get('eq_coarser_than_structure', 0),
                const_binding_compiles=c.get('const_binding_compiles', 0), const_binding_results=c.get('const_binding_results', 0), const_globals_checked=c.get('const_globals_checked', 0),
